@@ -20,7 +20,7 @@ using dbgroup::thread::EpochManager;
 constexpr size_t kN = dbgroup::thread::kMaxThreadNum;
 constexpr size_t kInitial = EpochManager::kInitialEpoch;
 
-enum Profile : int { kPin = 0, kAdvance = 1, kLists = 2, kSequential = 3, kStaleNode = 4, kPlainSteps = 5 };
+enum Profile : int { kPin = 0, kAdvance = 1, kLists = 2, kSequential = 3, kStaleNode = 4, kPlainSteps = 5, kPlainPin = 6 };
 enum Kind : int {
   // worker operations (concurrent profiles)
   kGuard = 0,     // a = hold yields, b = 1: GetProtectedEpochs (list checks) / 0: CreateEpochGuard, c = re-reads of the list
@@ -877,6 +877,12 @@ void generate(Program &prog, dsim::Config &cfg, dsim::Rng &pr, dsim::Rng &cr, in
   cfg.spin_bound = 3 * n + 12;
   cfg.max_steps = 200000;
   cfg.tso = cr.chance(1, 3);  // a third of the runs: x86-TSO store buffers (DESIGN 11.8)
+  if (profile == kPlainPin) {  // the general family (restarts, ID reuse, guard moves) at plain-step granularity
+    cfg.plain_sched = true;
+    cfg.tso = false;
+    cfg.pct_len = 800;
+    cfg.max_steps = 600000;
+  }
   static const int kDrain[] = {1, 5, 25};
   cfg.tso_drain_percent = kDrain[cr.below(3)];
   cfg.weak_stores = cr.chance(1, 2);  // half of the buffered runs: only release-class operations drain the buffer
